@@ -22,15 +22,17 @@ var (
 	specialUnits = []uint16{'"', '\\', '/', 0x7F, 0x2028, 0x2029, '<', '>', '&', '\'', 0x80, 0x9F, 0xA0, 0xFEFF, 0xFFFD, 0xFFFE, 0xFFFF, 0xD7FF, 0xE000, 'u', 'b', 'n'}
 	plainUnits   = []uint16{'a', 'b', 'z', 'A', '0', '9', ' ', '-', '_', '.', ':', ',', '{', '}', '[', ']', 0xE9, 0x3A3, 0x4E2D, 0x20AC}
 	loneUnits    = []uint16{0xD800, 0xDBFF, 0xDC00, 0xDFFF, 0xD83D}
-	commonKeys   = [][]uint16{ASCII("a"), ASCII("b"), ASCII("c"), ASCII(""), ASCII("0"), ASCII("1"), ASCII("length"), ASCII("toJSON"), ASCII("__proto__"), ASCII("constructor"), ASCII("a b"), {0xE9}, {'"'}, {'\\', 'n'}, {0x0A}, {0x2028}, {'<'}}
+	commonKeys   = [][]uint16{ASCII("a"), ASCII("b"), ASCII("c"), ASCII(""), ASCII("0"), ASCII("1"), ASCII("length"), ASCII("toJSON"), ASCII("__proto__"), ASCII("constructor"), ASCII("a b"), {0xE9}, {'"'}, {'\\', 'n'}, {0x0A}, {0x2028}, {'<'}, ASCII("\\u003c"), ASCII("\\u2028&"), ASCII("a\\")}
 )
+
+var escapeLookalikes = []string{"u003c", "u003e", "u0026", "u2028", "u2029", "u003C", "u0041", "uD800", "ud83d\\ude00", "n", "\"", "\\", "b", "/", "u", "x41", "u00"}
 
 // GenString draws a string over all code-unit classes; lone surrogates only when allowed.
 func GenString(t *rapid.T, maxLen int, lone bool) []uint16 {
 	n := rapid.IntRange(0, maxLen).Draw(t, "slen")
 	out := []uint16{}
 	for len(out) < n {
-		switch k := rapid.IntRange(0, 19).Draw(t, "sclass"); {
+		switch k := rapid.IntRange(0, 22).Draw(t, "sclass"); {
 		case k < 6:
 			out = append(out, rapid.SampledFrom(plainUnits).Draw(t, "plain"))
 		case k < 10:
@@ -49,6 +51,11 @@ func GenString(t *rapid.T, maxLen int, lone bool) []uint16 {
 		case k < 18:
 			c := uint16(rapid.IntRange(0, 0x1F).Draw(t, "anyctrl"))
 			out = append(out, c)
+		case k >= 20:
+			// a literal backslash followed by text that looks like an escape sequence: the writer must escape the backslash
+			// and nothing may later rewrite the "escape" (e.g. turning \\u003c into \\<)
+			out = append(out, '\\')
+			out = append(out, ASCII(rapid.SampledFrom(escapeLookalikes).Draw(t, "lookalike"))...)
 		default:
 			if lone {
 				// a lone half never directly before/after a matching half, so it stays lone
